@@ -79,6 +79,19 @@ func init() {
 	for _, f := range []string{"fpSqrtOk", "fp2SqrtOk", "e1OnCurve", "e2OnCurve", "e1IsInf", "e2IsInf", "inG1", "inG2", "e1Eq", "e2Eq"} {
 		Theory[f] = TheoryFn{SMT: f, Ret: "Bool", RetT: types.Typ[types.Bool]}
 	}
+	// ECDSA layer (int mode): big integers are ghost mathematical values; the curves are two constant interface values;
+	// ecdsaEq is the ECDSA verification equation of the standard library (on the leftmost bits of the digest), ecdsaSigOf
+	// what crypto/ecdsa.Sign returns, pubOf the public point of a private scalar, hkdfSha256 the HKDF-SHA256 output.
+	Theory["benat"] = TheoryFn{SMT: "benat", HeapArg: "byte", Ret: "Int", RetT: typInt}
+	Theory["be32v"] = TheoryFn{SMT: "be32v", HeapArg: "byte", Ret: "Int", RetT: typInt}
+	Theory["p256c"] = TheoryFn{SMT: "p256c", Ret: "Iface"}
+	Theory["s256c"] = TheoryFn{SMT: "s256c", Ret: "Iface"}
+	for _, f := range []string{"curveN", "curveP", "curveBits", "bitlen", "pubX", "pubY", "hkdfSha256"} {
+		Theory[f] = TheoryFn{SMT: f, Ret: "Int", RetT: typInt}
+	}
+	for _, f := range []string{"ecdsaEq", "ecdsaSigOf", "onCurve", "compressedOK"} {
+		Theory[f] = TheoryFn{SMT: f, Ret: "Bool", RetT: types.Typ[types.Bool]}
+	}
 	// ChaCha20 (int mode only): ks(sid, i) is byte i of the keystream of stream sid;
 	// chachaStream(key, nonce) names the stream of a 32-byte key and a 12-byte nonce by their contents.
 	Theory["ks"] = TheoryFn{SMT: "ks", Ret: "Int", RetT: types.Typ[types.Uint8]}
@@ -238,6 +251,7 @@ func TheoryPrelude(m Mode) string {
 		b.WriteString("(assert (forall ((n Int) (c Int)) (! (= (shInit (cshakeNew n c)) (cshakeNew n c)) :pattern ((cshakeNew n c)))))\n")
 		b.WriteString("(assert (forall ((s Int)) (! (= (shInit (shInit s)) (shInit s)) :pattern ((shInit s)))))\n")
 		b.WriteString("(assert (forall ((s Int) (k Int)) (! (and (<= 0 (shOut s k)) (<= (shOut s k) 255)) :pattern ((shOut s k)))))\n")
+		b.WriteString(ecdsaTheory(hs))
 		b.WriteString(foldTheory())
 		b.WriteString("(declare-fun g2vecValidA ((Array Int Int) Int Int) Bool)\n")
 		fmt.Fprintf(&b, "(define-fun g2vecValid ((h %s) (s Slice) (n Int)) Bool (g2vecValidA (select h (p.obj (sl.ptr s))) (p.off (sl.ptr s)) n))\n", hs)
@@ -331,5 +345,44 @@ func lemmaText(m Mode) string {
 			b.WriteString("(assert " + l.SMT + ")\n")
 		}
 	}
+	return b.String()
+}
+
+// ecdsaTheory: spec-level vocabulary of the ECDSA glue (everything here is the assumed meaning of Go's standard library,
+// crypto/ecdsa, crypto/elliptic, crypto/ecdh, btcec and math/big; the constants are the group orders and field primes
+// of NIST P-256 and secp256k1).
+func ecdsaTheory(hs string) string {
+	var b strings.Builder
+	const (
+		nP256 = "115792089210356248762697446949407573529996955224135760342422259061068512044369"
+		pP256 = "115792089210356248762697446949407573530086143415290314195533631308867097853951"
+		nS256 = "115792089237316195423570985008687907852837564279074904382605163141518161494337"
+		pS256 = "115792089237316195423570985008687907853269984665640564039457584007908834671663"
+	)
+	b.WriteString("(declare-fun benatA ((Array Int Int) Int Int) Int)\n")
+	fmt.Fprintf(&b, "(define-fun benat ((h %s) (s Slice)) Int (ite (= (sl.len s) 32) (be32 h s) (ite (= (sl.len s) 0) 0 (benatA (select h (p.obj (sl.ptr s))) (p.off (sl.ptr s)) (sl.len s)))))\n", hs)
+	b.WriteString("(assert (forall ((a (Array Int Int)) (o Int) (n Int)) (! (<= 0 (benatA a o n)) :pattern ((benatA a o n)))))\n")
+	// be32A(a, o): the big-endian value of the 32 bytes at (a, o), as a function symbol (same value as be32)
+	{
+		var args []string
+		for k := 1; k < 32; k++ {
+			args = append(args, fmt.Sprintf("(select a (+ o %d))", k))
+		}
+		b.WriteString("(declare-fun be32A ((Array Int Int) Int) Int)\n")
+		fmt.Fprintf(&b, "(assert (forall ((a (Array Int Int)) (o Int)) (! (= (be32A a o) (+ (* %s (select a o)) (be32low %s))) :pattern ((be32A a o)))))\n", pow2(248).String(), strings.Join(args, " "))
+		fmt.Fprintf(&b, "(define-fun be32v ((h %s) (s Slice)) Int (be32A (select h (p.obj (sl.ptr s))) (p.off (sl.ptr s))))\n", hs)
+		// assumed (arithmetic of positional notation): the big-endian value of a string is unchanged by left-padding with zero bytes
+		b.WriteString("(assert (forall ((a (Array Int Int)) (oa Int) (b (Array Int Int)) (ob Int) (n Int)) (! (=> (and (<= 0 n) (<= n 32) (forall ((q Int)) (! (=> (and (<= oa q) (< q (+ oa (- 32 n)))) (= (select a q) 0)) :pattern ((select a q)))) (forall ((q Int)) (! (=> (and (<= ob q) (< q (+ ob n))) (= (select b q) (select a (+ (- q ob) (+ oa (- 32 n)))))) :pattern ((select b q))))) (= (be32A a oa) (ite (= n 0) 0 (ite (= n 32) (be32A b ob) (benatA b ob n))))) :pattern ((be32A a oa) (benatA b ob n)))))\n")
+	}
+	b.WriteString("(declare-const p256c Iface)\n(declare-const s256c Iface)\n(assert (not (= p256c s256c)))\n(assert (and (not (= (if.dyn p256c) 0)) (not (= (if.dyn s256c) 0))))\n")
+	b.WriteString("(declare-fun curveN (Iface) Int)\n(declare-fun curveP (Iface) Int)\n(declare-fun curveBits (Iface) Int)\n(declare-fun bitlen (Int) Int)\n")
+	fmt.Fprintf(&b, "(assert (and (= (curveN p256c) %s) (= (curveP p256c) %s) (= (curveBits p256c) 256)))\n", nP256, pP256)
+	fmt.Fprintf(&b, "(assert (and (= (curveN s256c) %s) (= (curveP s256c) %s) (= (curveBits s256c) 256)))\n", nS256, pS256)
+	fmt.Fprintf(&b, "(assert (forall ((v Int)) (! (=> (and (<= %s v) (< v %s)) (= (bitlen v) 256)) :pattern ((bitlen v)))))\n", pow2(255).String(), pow2(256).String())
+	b.WriteString("(declare-fun ecdsaEq (Iface Int Int Int Int Int) Bool)\n(declare-fun ecdsaSigOf (Iface Int Int Int Int) Bool)\n")
+	b.WriteString("(declare-fun pubX (Iface Int) Int)\n(declare-fun pubY (Iface Int) Int)\n(declare-fun onCurve (Iface Int Int) Bool)\n(declare-fun compressedOK (Iface Int Int) Bool)\n")
+	b.WriteString("(declare-fun hkdfSha256 (Int Int Int Int) Int)\n")
+	// the public point of a scalar in [1, n-1] is a point of the curve with coordinates below p
+	b.WriteString("(assert (forall ((c Iface) (d Int)) (! (=> (and (<= 1 d) (< d (curveN c))) (and (onCurve c (pubX c d) (pubY c d)) (<= 0 (pubX c d)) (< (pubX c d) (curveP c)) (<= 0 (pubY c d)) (< (pubY c d) (curveP c)))) :pattern ((pubX c d)))))\n")
 	return b.String()
 }
